@@ -41,8 +41,9 @@ RunOk(r) ==
                /\ d.name # "" => c.name = d.name
           /\ LET rc == Calls(r, "record")  ex == RecordVisits(d, r.slots) IN
                /\ Len(rc) = Len(ex)
-               /\ \A i \in 1..Len(ex) : /\ Len(rc[i].visits) = 1
-                                        /\ rc[i].visits[1].name = ex[i].name /\ rc[i].visits[1].m = ex[i].m /\ rc[i].visits[1].v = ex[i].v
+               /\ \A i \in 1..Len(ex) : /\ Len(rc[i].visits) = Len(ex[i])
+                                        /\ \A k \in 1..Len(ex[i]) : /\ rc[i].visits[k].name = ex[i][k].name
+                                                                     /\ rc[i].visits[k].m = ex[i][k].m /\ rc[i].visits[k].v = ex[i][k].v
           /\ d.kind = "span" => (Len(r.notes) = 1 /\ ~r.notes[1].span_disabled)
      ELSE /\ Len(Calls(r, "event")) = 0 /\ Len(Calls(r, "new_span")) = 0 /\ Len(Calls(r, "record")) = 0
           /\ d.kind = "span" => (Len(r.notes) = 1 /\ r.notes[1].span_disabled)
